@@ -39,6 +39,11 @@ CLAIM = {
 }
 
 
+CLAIM["text"] += (" (R8.11) `whose initial holder commitment was already counter-signed`: the funding clause tests "
+                  "next_holder_commit_num == 1; that counter leaves 0 only through a staged commitment, and a commitment is staged "
+                  "only after the validator and the counterparty signature check on the recomposed transaction succeeded (same "
+                  "obligations as C01 R1.6 / R1.7 / R1.8).")
+
 def run(ctx):
     ctx.explanation = CLAIM["text"]
     ctx.not_decided = "the beneficial-value inequality over arbitrary amounts (value ranges)"
@@ -51,6 +56,7 @@ def run(ctx):
     r87(ctx)
     r88(ctx)
     r89(ctx)
+    r811(ctx)
     r_filter(ctx)
 
 
@@ -449,3 +455,13 @@ def r_filter(ctx):
     Err unless Warn), evaluated here because an operator's `error` pin on this property's tags depends on them."""
     from rules import C05 as _c05
     _c05.r54(ctx, rid="R8.10")
+
+
+def r811(ctx):
+    """the fact `next_holder_commit_num == 1` that R8.1 relies on means `counter-signed` only because of C01 R1.6-R1.8"""
+    from rules import C01 as _c01
+    from engine import report as _report
+    v = _report.renamed(ctx, {"R1.6": "R8.11", "R1.7": "R8.11", "R1.8": "R8.11"})
+    _c01.r16(v)
+    _c01.r17(v)
+    _c01.r18(v)
